@@ -753,7 +753,7 @@ def gen_conc_cases(rng, quick, stats):
     return out
 
 
-def check_conc(c, o, allow_fsync_failed=False):
+def check_conc(c, o, allow_fsync_failed=False, allow_write_failed=False):
     """each call Ok; the file is a concatenation of whole batches, each exactly once; per-thread order kept"""
     bad = []
     if o == "HANG":
@@ -767,16 +767,17 @@ def check_conc(c, o, allow_fsync_failed=False):
     nb = len(res)
     # with an injected fdatasync failure: the calls the failed sync was for get fsync-failed, every
     # later one is refused (log poisoned, b7cac52) or gets fsync-failed; none of them is acknowledged
-    if any(r != "ok" and not (allow_fsync_failed and r in ("err:corruption-fsync-failed", "err:corruption-log-poisoned")) for r in res):
+    if any(r != "ok" and not (allow_fsync_failed and r in ("err:corruption-fsync-failed", "err:corruption-log-poisoned"))
+           and not (allow_write_failed and r in ("err:system-error", "err:corruption-log-poisoned")) for r in res):
         bad.append(("append-not-ok", " ".join(sorted(set(res)))))
     d = dict(kv.split("=", 1) for kv in tail.split())
-    if d.get("o") != "end":
+    if d.get("o") != "end" and not (allow_write_failed and d.get("o", "").startswith("err:")):
         bad.append(("concurrent-log-unreadable", tail))
     if d.get("decomposed") != "yes":
         bad.append(("batch-torn-or-duplicated", tail))
     order = [int(x) for x in d.get("order", "").split(",") if x]
     # a refused append (log poisoned) must leave no trace in the file; every other batch is there once
-    expect_in_file = [b for b, r in enumerate(res) if r != "err:corruption-log-poisoned"]
+    expect_in_file = [b for b, r in enumerate(res) if r != "err:corruption-log-poisoned" and not (allow_write_failed and r != "ok")]
     if sorted(order) != expect_in_file:
         bad.append(("batch-missing-or-duplicated", "order=%s, expected exactly the batches %s" % (d.get("order"), expect_in_file if len(expect_in_file) != nb else "0..%d" % (nb - 1))))
     pos = {b: k for k, b in enumerate(order)}
@@ -1028,3 +1029,95 @@ def _strace_one(hxbin, line, d, info, inject_when=None):
             info["bad"].append(("append-not-ok", "no fdatasync failed, yet: " + " ".join(sorted(set(res.split(" | ", 1)[0].split()))), line))
         if len(acks) != n_ok:
             info["bad"].append(("missing-acks", "%d acknowledgements for %d Ok results" % (len(acks), n_ok), line))
+
+
+def write_fault_runs(chk, hxbin, rng, quick):
+    """strace makes the K-th write(2) on the LOG FILE fail (ENOSPC / EIO; -P restricts tracing and
+    injection to that path).  Sequential LogBuilder<File> and ConcurrentLogBuilder.  Oracle: an append
+    that returned an error is not in the file after seal/drop; what was acknowledged Ok is read back, in
+    order, as a prefix; after the first error nothing more is accepted (fail-stop); nothing hangs."""
+    info = {"runs": 0, "sequential": 0, "concurrent": 0, "errors_hit": 0, "bad": []}
+    rc, out = vlib.sh(["strace", "-V"])
+    if rc != 0:
+        return info
+    nseq, nconc = (8, 3) if quick else (60, 20)
+    for run in range(nseq + nconc):
+        conc = run >= nseq
+        d = os.path.join(chk.work, "wfault%d" % run)
+        vlib.sh(["rm", "-rf", d])
+        os.makedirs(d)
+        err = rng.choice(["ENOSPC", "ENOSPC", "EIO"])
+        if conc:
+            threads = rng.range(3, 6)
+            nb = threads * rng.range(3, 6)
+            when = rng.range(1, 4)
+            bs = []
+            for b in range(nb):
+                es = [Ent.rand(rng, "p", rng.range(1, 16), b, rng.choice([0, 10, 100, 3000]))] + [small_entry(rng) for _ in range(rng.below(2))]
+                bs.append(",".join(e.spec() for e in es))
+            line = "conc %d wb=%d | %s" % (threads, rng.choice([64, 4096]), ";".join(bs))
+            target = "conc.log"
+        else:
+            nb = rng.range(3, 9)
+            when = rng.range(1, 2 * nb)
+            bs = [",".join(small_entry(rng).spec() for _ in range(rng.range(1, 4))) for _ in range(nb)]
+            line = "flush=1 sink=file wb=%d | %s | @-" % (rng.choice([1, 64, 4096]), ";".join(bs))
+            target = "w"
+        scr = os.path.join(d, "scratch")
+        os.makedirs(scr)
+        with open(os.path.join(d, "in"), "w") as fh:
+            fh.write(line + "\n")
+        cmd = "C12_SCRATCH=%s strace -f -qq -o %s/trace -P %s/%s -e trace=write,pwrite64,writev -e inject=write,pwrite64,writev:error=%s:when=%d %s < %s/in > %s/out" % (scr, d, scr, target, err, when, hxbin, d, d)
+        rc, out = vlib.sh(cmd, timeout=120)
+        info["runs"] += 1
+        info["concurrent" if conc else "sequential"] += 1
+        tag = "%s [%s on write #%d of the log file]" % ("concurrent" if conc else "sequential", err, when)
+        replay = {"line": line, "err": err, "when": when, "target": target}
+        if rc == 124:
+            info["bad"].append(("append-never-returned", tag, replay))
+            continue
+        try:
+            res = open(os.path.join(d, "out")).read().strip()
+        except OSError:
+            res = ""
+        if not res or res.startswith("HARNESS-PANIC"):
+            info["bad"].append(("harness-panic", tag + " " + res[:200], replay))
+            continue
+        if conc:
+            head = res.split(" | ", 1)[0].split()
+            if any(r != "ok" for r in head):
+                info["errors_hit"] += 1
+            for what, detail in check_conc(ConcCase(line, "wfault"), res, allow_write_failed=True):
+                info["bad"].append((what, detail + " " + tag, replay))
+            continue
+        secs = [x.strip() for x in res.split(" | ")]
+        stat = [w.split("=", 1)[1].split(":")[0] for w in secs[0].split() if not w.startswith("seal=")]
+        if "err" in stat:
+            info["errors_hit"] += 1
+            first = stat.index("err")
+            if "ok" in stat[first:]:
+                info["bad"].append(("append-accepted-after-write-error", "%s: %s" % (tag, secs[0][:300]), replay))
+        if "PANIC" in stat or secs[2] == "PANIC":
+            info["bad"].append(("panic", tag + " " + res[:300], replay))
+            continue
+        rd = dict(kv.split("=", 1) for kv in secs[2].split())
+        n_ok = stat.count("ok")
+        if rd["j"] == "?" or int(rd["j"]) != n_ok:
+            info["bad"].append(("failed-append-in-file-or-acknowledged-append-lost",
+                                "%s: %d appends returned Ok, the file reads back as %s (%s)" % (tag, n_ok, rd["j"], secs[2][:200]), replay))
+        if "err" not in stat and not rd["o"].startswith("end"):
+            info["bad"].append(("untruncated-log-errors", tag + " " + secs[2][:200], replay))
+    return info
+
+
+def write_fault_replay(hxbin, replay, workdir):
+    os.makedirs(workdir, exist_ok=True)
+    scr = os.path.join(workdir, "scratch")
+    vlib.sh(["rm", "-rf", scr])
+    os.makedirs(scr)
+    with open(os.path.join(workdir, "in"), "w") as fh:
+        fh.write(replay["line"] + "\n")
+    cmd = "C12_SCRATCH=%s strace -f -qq -o %s/trace -P %s/%s -e trace=write,pwrite64,writev -e inject=write,pwrite64,writev:error=%s:when=%d %s < %s/in" % (
+        scr, workdir, scr, replay["target"], replay["err"], replay["when"], hxbin, workdir)
+    rc, out = vlib.sh(cmd, timeout=120)
+    return "HANG" if rc == 124 else out.strip()
